@@ -352,4 +352,63 @@ theorem Inv.rebuild {ds : Nat → Decl} {U R} : ∀ (fuel : Nat) {g : EG}, Inv d
     · exact i.rebuildPass
     · exact ih i.rebuildPass
 
+/-! ### partial (incremental) rebuild passes -/
+
+/-- re-canonicalise and re-insert only the rows selected by `sel` (what an index-driven, incremental
+rebuild does: `sel` = "mentions a displaced id"), leaving the other rows where they are -/
+def rebuildSome (g : EG) (f : Nat) (sel : Row → Bool) : EG :=
+  let res := ((g.table f).filter sel).foldl (rbStep (g.decl f)) (g, (g.table f).filter (fun r => !sel r))
+  res.1.setTable f res.2
+
+/-- **Any partial rebuild pass preserves the history invariant** — whatever subset of the rows it
+chooses to re-insert.  An incremental strategy can therefore never invent or lose an equality; the
+only thing it can fail to do is reach a canonical database (which is decidable on the result). -/
+theorem Inv.rebuildSome {ds : Nat → Decl} {g : EG} {U R} (i : Inv ds g U R) (f : Nat) (sel : Row → Bool) :
+    Inv ds (EGraph.rebuildSome g f sel) U R := by
+  unfold EGraph.rebuildSome
+  simp only
+  rw [i.decl f]
+  have hkeep : ∀ y, y ∈ (g.table f).filter (fun r => !sel r) → y ∈ g.table f := fun y hy => (List.mem_filter.mp hy).1
+  have hredo : ∀ y, y ∈ (g.table f).filter sel → y ∈ g.table f := fun y hy => (List.mem_filter.mp hy).1
+  obtain ⟨s1, s2, s3, s4, s5, s6⟩ := rbFold_spec (ds f) ((g.table f).filter sel) (g, (g.table f).filter (fun r => !sel r)) i.wf
+  obtain ⟨t1, t2⟩ := rbFold_sound (ds := ds) (U := U) (R := R) f ((g.table f).filter sel) (g, (g.table f).filter (fun r => !sel r)) i.wf i.sound
+    (fun y hy => i.just f y (hkeep y hy)) (fun y hy => i.just f y (hredo y hy))
+  have hdec : ∀ f', ((((g.table f).filter sel).foldl (rbStep (ds f)) (g, (g.table f).filter (fun r => !sel r))).1.setTable f
+      (((g.table f).filter sel).foldl (rbStep (ds f)) (g, (g.table f).filter (fun r => !sel r))).2).decl f' = g.decl f' :=
+    fun f' => decl_congr (g' := EG.setTable _ f _) s4 f'
+  have htabo : ∀ f', f' ≠ f → ((((g.table f).filter sel).foldl (rbStep (ds f)) (g, (g.table f).filter (fun r => !sel r))).1.setTable f
+      (((g.table f).filter sel).foldl (rbStep (ds f)) (g, (g.table f).filter (fun r => !sel r))).2).table f' = g.table f' := by
+    intro f' hne
+    rw [setTable_table, if_neg (fun h => hne h.1)]
+    exact table_congr s3 f'
+  by_cases hf : f < g.tables.size
+  · have hsize : f < (((g.table f).filter sel).foldl (rbStep (ds f)) (g, (g.table f).filter (fun r => !sel r))).1.tables.size := by
+      rw [s3]; exact hf
+    have htabf : ((((g.table f).filter sel).foldl (rbStep (ds f)) (g, (g.table f).filter (fun r => !sel r))).1.setTable f
+        (((g.table f).filter sel).foldl (rbStep (ds f)) (g, (g.table f).filter (fun r => !sel r))).2).table f
+        = (((g.table f).filter sel).foldl (rbStep (ds f)) (g, (g.table f).filter (fun r => !sel r))).2 := by
+      rw [setTable_table, if_pos ⟨rfl, hsize⟩]
+    refine i.step s1 ⟨s2.eq, s2.roots⟩ hdec ?_ (fun p hp => Or.inl hp) (fun r hr => Or.inl hr) t1 ?_
+    · intro f' y hy
+      by_cases hne : f' = f
+      · subst hne
+        by_cases hs : sel y = true
+        · obtain ⟨y', hy', e1, e2⟩ := s6 y (List.mem_filter.mpr ⟨hy, hs⟩)
+          refine ⟨y', by rw [htabf]; exact hy', ?_, fun hm => e2 ?_⟩
+          · rw [hdec f', i.decl f']; exact e1
+          · rw [hdec f', i.decl f'] at hm; exact hm
+        · obtain ⟨y', hy', e1, e2⟩ := s5 y (List.mem_filter.mpr ⟨hy, by simpa using hs⟩)
+          refine ⟨y', by rw [htabf]; exact hy', by rw [e1], fun hm => e2 ?_⟩
+          rw [hdec f', i.decl f'] at hm; exact hm
+      · exact HasImg.self (htabo f' hne ▸ hy)
+    · intro f' y hy
+      by_cases hne : f' = f
+      · subst hne; rw [htabf] at hy; exact t2 y hy
+      · rw [htabo f' hne] at hy; exact i.just f' y hy
+  · have hnil := table_of_ge g (Nat.le_of_not_lt hf)
+    simp only [hnil, List.filter_nil, List.foldl_nil]
+    refine i.congr i.wf (fun _ => rfl) rfl ?_
+    unfold EG.setTable
+    simp [hf]
+
 end EgglogVerif.EGraph
